@@ -516,6 +516,8 @@ def evaluate_case(Matcher, text, tree, judge, seq, col, part):
     if sep:
         labels.append("seq:separates_bidirectional_epsilon_model")
     labels.append("leaves:%d" % R.leaves(tree) if R.leaves(tree) < 9 else "leaves:9+")
+    if judge.ref.re_cut_off:
+        labels.append("oracle:re_cut_off_automaton_only")
     nontrivial = R.has_operator(tree) and len(seq) >= 2 and len(acc) >= 1
     col.case(key=(part, text, seq), nontrivial=nontrivial, labels=labels,
              sample=None if col._nt_samples >= 2 else lambda: {"part": part, "pattern": text, "sequence": list(seq), "accepted": list(acc),
